@@ -118,6 +118,6 @@ macro_rules! prune_harness {
     };
 }
 
-//             name          d  unwind (d + 1: prune loops d times)
-prune_harness!(c12_prune_d1, 1, 2);
+//             name          d  unwind (prune loops d times; dropping the two centroids is a loop of 2 iterations)
+prune_harness!(c12_prune_d1, 1, 3);
 prune_harness!(c12_prune_d2, 2, 3);
